@@ -39,6 +39,7 @@ type renderCase struct {
 	Query      string          `json:"raw_query,omitempty"`                                         // the request's query string: nothing in it is an argument of the render
 	CtxDone    bool            `json:"request_context_done_before_rendering,omitempty"`             // the rendering handler cancels the request's context first (a time-limit pattern that reports 504 through the renderer): the render is still sent
 	Counting   bool            `json:"value_counts_its_encodings,omitempty"`                        // json | xml: the value's marshaler reports how many times it has been asked: the body is the first encoding
+	Big        int             `json:"value_padded_to_bytes,omitempty"`                             // the value is padded to about this many bytes (xml: the title; json: a string; binary/text: the bytes) - sizes around the buffer sizes of encoders and writers. Status and header go out first whatever the size
 	ReqHdr     [][2]string     `json:"request_headers,omitempty"`                                   // range / conditional / negotiation headers of the request: a render sends what it was given, whatever the request would have preferred
 	Get        bool            `json:"get_request,omitempty"`                                       // the route is registered for GET and asked with GET (default: POST)
 	Head       bool            `json:"head_request,omitempty"`                                      // the route is registered for HEAD and asked with HEAD: same status and header, no body, and the render ends like any other
@@ -153,6 +154,9 @@ func genRenderCase(rng *rand.Rand) *renderCase {
 	}
 	if c.Overlap {
 		c.Head = false // the overlapping request is recognised by its body
+	}
+	if rng.Intn(40) == 0 {
+		c.Big = []int{4095, 4096, 4097, 8192, 8193, 32767, 32768, 32769, 40000, 65535, 65536, 65537, 100000, 1 << 20}[rng.Intn(14)]
 	}
 	if rng.Intn(4) == 0 {
 		for n := 1 + rng.Intn(2); n > 0; n-- {
@@ -374,6 +378,23 @@ func judgeRender(w *core.W, c *renderCase) {
 	w.Eval()
 	if c.XMLVal != nil {
 		c.XMLVal.XMLName = xml.Name{Local: "doc"}
+	}
+	if c.Big > 0 && c.JSONGo == "" && !c.ErrValue && !c.Counting {
+		switch c.Kind {
+		case "xml":
+			if len(c.XMLVal.Title) < c.Big {
+				c.XMLVal.Title += strings.Repeat("t", c.Big-len(c.XMLVal.Title))
+			}
+		case "json":
+			if len(c.JSONVal) < c.Big {
+				c.JSONVal, _ = json.Marshal(strings.Repeat("j", c.Big))
+			}
+		default:
+			if len(c.Bytes) < c.Big {
+				c.Bytes = core.B(string(c.Bytes) + strings.Repeat("b", c.Big-len(c.Bytes)))
+			}
+		}
+		w.Count("large-values")
 	}
 	var o renderObs
 	f := flamego.NewWithLogger(io.Discard)
